@@ -170,6 +170,19 @@ def run(ctx):
                 check_string(ctx, s_, 'control-char-reversed', list(reversed(VALIDATORS)))
     ctx.count('control_char_strings', len(valid) * 10 * 4)
 
+    # well-known prefixes (a validator may treat "its own" namespaces specially): every tail up to length 3, and control
+    # characters, behind each
+    prefixes = ['org.freedesktop.DBus.', 'org.freedesktop.DBus', 'org.freedesktop.', 'org.', 'com.example.', ':1.',
+                '/org/freedesktop/DBus/', '/org/freedesktop/DBus', 'org.txdbus.', 'org.freedesktop.DBus.Error.',
+                'org.freedesktop.DBus.Properties.']
+    tails = [''.join(t) for ln in range(0, 4) for t in itertools.product(ALPHABET, repeat=ln)]
+    tails += ['Out Of Range', 'a\n', 'a..b', '1a', 'a-b', 'a' * 240, 'é']
+    if shard_i == 0:
+        for pre in prefixes:
+            for tl in tails:
+                check_string(ctx, pre + tl, 'prefix')
+        ctx.count('prefixed_strings', len(prefixes) * len(tails))
+
     # random long strings, biased towards near-valid shapes
     nrand = (4000 if ctx.tier == 'quick' else 40000) // shard_n + 1
     weights = [12, 4, 2, 5, 1, 1, 4, 1, 1]
@@ -192,7 +205,9 @@ def run(ctx):
     names = [''.join(t) for ln in range(0, 4) for t in itertools.product(ALPHABET, repeat=ln)]
     names += ['a.b.', 'a.b:c', ':.a', ':1.2', 'a.b.c', '/a/b', '/a//b', '/a/', 'a..b', '.a.b', 'a.1b', 'a-b.c',
               'a' * 255, 'a.' + 'b' * 253, 'a.' + 'b' * 254, '/' + 'a' * 300, 'M' * 256, 'a b.c', 'a.b\n', 'M\n', '/a\n',
-              ':1.2\n', 'a.b\r', '\na.b', 'M\0', '/a/b\n', 'a.b\n.c']
+              ':1.2\n', 'a.b\r', '\na.b', 'M\0', '/a/b\n', 'a.b\n.c', 'org.freedesktop.DBus.Error.Out Of Range',
+              'org.freedesktop.DBus.a..b', 'org.freedesktop.DBus.', 'org.freedesktop.DBus.1x', 'org.freedesktop.DBus.Peer',
+              '::1.2', ':1.2:3', ':a.b:c', 'a-1.b', 'a.-1', '//', '//a']
     if shard_i == 0:
         constructor_matrix(ctx, names)
     ctx.require(ctx.counters.get('evaluations', 0) > 1000, 'too few evaluations')
